@@ -8,6 +8,32 @@ ROOT = os.path.dirname(os.path.dirname(os.path.abspath(__file__)))
 
 # id -> (category, technique, level text, level note, design ref)
 CHECKS = {
+    'C14': ('fault_enumeration',
+            'Hypothesis-generated command shapes; exhaustive enumeration of '
+            'fault positions per command (task cancellation, disconnect, '
+            'injected storage-call exceptions, injected filesystem errors, '
+            'kill + restart from crash images); conservation oracle over '
+            'source/destination dumps',
+            'For each generated MOVE / COPY / multi-message APPEND / EXPUNGE '
+            'command (UID variants, 1-4 messages, \\Deleted subsets, set '
+            'shapes, a second session with source or destination selected, '
+            'back-pressure gate) a dry run counts loop iterations, backend '
+            'storage calls and mutating filesystem operations; then every '
+            'position of every fault kind is executed in a fresh world: f1 '
+            'cancel and f2 EOF/reset at every loop iteration; f3 an exception '
+            'from the n-th MailboxData.append/copy/move/delete/update/get or '
+            'rw-lock acquisition; f4 (maildir) EIO from the n-th mutating '
+            'filesystem operation; f5 (maildir) kill before the n-th '
+            'operation, restart of the crash image. After each: every message '
+            'that existed is in source or destination, after an OK MOVE in '
+            'exactly one, a failed multi-APPEND left nothing, NO/BAD changed '
+            'nothing, the server still serves. Exhaustive over the fault '
+            'positions of each generated command; commands are sampled.',
+            'On the asyncio subsystem f1/f2 cannot land inside a dict command '
+            '(reported per fault kind in the evidence); faults are not '
+            'injected into lock-file and tmp/ cleanup unlinks; one known '
+            'finding (kill inside a maildir MULTIAPPEND).',
+            'DESIGN.md section 3, C14'),
     'C04': ('exploration',
             'Hypothesis-generated multi-session, multi-mailbox histories; '
             'invariant over the whole history of reported (UIDVALIDITY, UID) '
